@@ -95,7 +95,7 @@ def pushat_pos(kind, n, i):
     return j if 0 <= j < n else -1
 
 
-def random_history(rng, kind, nvals, nops, zero_tok=0, two=True, maxlen=40, bad=None, cross=True, p_out=0.06, fromit=False, xassign=True, selfpush=True, selfcat=True):
+def random_history(rng, kind, nvals, nops, zero_tok=0, two=True, maxlen=40, bad=None, cross=True, p_out=0.06, fromit=False, xassign=True, selfpush=True, selfcat=True, sortmixed=False):
     """random history over up to 3 sequences.  The generator tracks the abstract contents only to choose
     interesting arguments (mostly valid indices, present and absent values); verdicts come from TLC."""
     L = ["reset"]
@@ -115,6 +115,9 @@ def random_history(rng, kind, nvals, nops, zero_tok=0, two=True, maxlen=40, bad=
                 return rng.choice([hi, hi + 1, -n - 1, -n - 2, 1000, -1000])
             i = rng.randrange(0, hi)
             return i - n if (rng.random() < 0.4 and n > 0 and i - n < 0) else i
+        if sortmixed and kd == "Tuple" and 3 <= n <= 60 and rng.random() < 0.04:
+            L.append("bad %d sort_perm" % o)          # a sort aborted by a raising comparison: still the same items (C04), in whatever order
+            continue
         if bad and r < 0.12:
             w = rng.choice(bad)
             if w.startswith("set_") and w not in ("set_len", "set_neg", "set_max") and n == 0:
